@@ -280,3 +280,7 @@ ITEMS = [
 ]
 VERUS_ARGS = ['--multiple-errors', '3']
 CANARIES = ['get_attr', 'lemmas:canaries.rs']
+# functions this unit only ASSUMES contracts for (reviewed, not verified here): a change to them makes the unit's answer 'undecided'
+WATCH = [('cedar-policy-core/src/ast/expr_iterator.rs', "impl<'a, T> Iterator for ExprIterator<'a, T> > fn next"),
+         ('cedar-policy-core/src/ast/partial_value.rs', 'fn split'),
+         ('cedar-policy-core/src/ast/request.rs', 'impl EntityUIDEntry > fn evaluate')]
